@@ -340,6 +340,13 @@ def proxy_mint(ch: Any, w: World, t_send: float, label: str, *, kind: str | None
     secret = w.ring[kid]
     origin = w.origin
     nonce: str | None = b64nonce(w.rng)
+    # a proxy (or a second proxy behind the same origin) may reuse a nonce - under the same key or, during a rotation
+    # overlap, under the OTHER live key; the spec's nonce history is one per worker, not one per key
+    used: list[str] = w.__dict__.setdefault("used_nonces", [])
+    reuse = bool(used) and ch.chance(1, 8, label + ".nonce-reuse")
+    if reuse:
+        nonce = used[ch.choose(len(used), label + ".nonce-pick")]
+        ch.fault("proxy.nonce-reused")
     if kind == "wrong-origin":
         origin = OTHER_ORIGINS[ch.choose(len(OTHER_ORIGINS), label + ".origin")]
     elif kind == "wrong-secret":
@@ -360,6 +367,10 @@ def proxy_mint(ch: Any, w: World, t_send: float, label: str, *, kind: str | None
         assert nonce is not None
         return _bad_framing(secret, kid, origin, ts, nonce, ch.choose(5, label + ".framing")), "bad-framing"
     minter = ch.choose(3, label + ".minter")  # 0 real mint_proof, 1 real with its own nonce draw, 2 model minter
+    if reuse and minter == 1:
+        minter = 0
+    if nonce is not None and minter != 1 and nonce not in used:
+        used.append(nonce)
     if minter == 0:
         tok = proof_mod.mint_proof(secret, kid, origin, now=ts, nonce=nonce)
     elif minter == 1:
